@@ -202,7 +202,7 @@ def gen_marker(rng, cfg, budget=None):
         return gen_atom(rng, cfg)
     kind = "and" if rng.random() < 0.5 else "or"
     other = "or" if kind == "and" else "and"
-    n_children = min(rng.choice([2, 2, 2, 3]), budget)
+    n_children = min(rng.choice([2, 2, 2, 3] if budget < 8 else [2, 3, 3, 4]), budget)
     children = []
     left = budget
     for i in range(n_children):
@@ -419,6 +419,7 @@ def gen_config(rng, fault_class=None):
         "roundtrip": rng.random() < 0.25,
         "p_echo": rng.choice([0.0, 0.15, 0.35, 0.6]),
         "p_borrow": rng.choice([0.0, 0.0, 0.15, 0.4]),
+        "battery": rng.choice([0, 0, 4, 8]),
         "order_ops": order_ops,
         "p_flip": rng.choice([0.0, 0.15, 0.3, 0.5]),
         "p_long_pv": rng.choice([0.1, 0.1, 0.5]),
@@ -427,7 +428,7 @@ def gen_config(rng, fault_class=None):
         "p_invalid": rng.choice([0.0, 0.0, 0.3]),
         "p_single": rng.choice([0.25, 0.4, 0.6]),
         "p_nest": rng.choice([0.0, 0.25, 0.5]),
-        "max_atoms": rng.choice([3, 4, 4, 5, 6]),
+        "max_atoms": rng.choice([3, 4, 4, 5, 6, 6, 8]),
         "n_victims": rng.choice([1, 1, 1, 2]),
         "n_aggressors": rng.choice([0, 1, 1, 1, 2]),
         "ops_per_client": rng.choice([3, 4, 5, 6, 8, 10, 12]),
@@ -743,6 +744,7 @@ def schedule_program(rng, base, variant=False, fault_class=None):
         cfg["shims"] = rng.random() < 0.5
         cfg["p_echo"] = rng.choice([0.0, 0.15, 0.35, 0.6])
         cfg["p_borrow"] = rng.choice([0.0, 0.0, 0.15, 0.4])
+        cfg["battery"] = rng.choice([0, 0, 4, 8])
     # schedule: which client issues its next op
     cursors = [0] * len(scripts)
     order = []
@@ -841,8 +843,27 @@ def schedule_program(rng, base, variant=False, fault_class=None):
                     st["borrowed"] = True
             if st["op"] in ("parse", "and", "or", "reparse"):
                 produced.append((st["id"], st["c"]))
+    roles = list(roles)
+    if cfg.get("battery") and len(steps) >= 4:
+        # a last component that combines results of all the others once the process state is richest
+        bc = len(scripts)
+        roles.append("battery")
+        gone = {st["a"] for st in steps if st["op"] == "drop"}
+        pool = [st["id"] for st in steps if st["op"] in ("parse", "and", "or", "reparse") and st["id"] not in gone]
+        mine = []
+        for _ in range(cfg["battery"]):
+            if len(pool) < 2:
+                break
+            a = rng.choice(mine) if (mine and rng.random() < 0.3) else rng.choice(pool)
+            b = rng.choice(pool[-8:]) if rng.random() < 0.4 else rng.choice(pool)
+            sid = len(steps)
+            steps.append({"id": sid, "c": bc, "op": rng.choice(["and", "or"]), "a": a, "b": b})
+            mine.append(sid)
+            if rng.random() < 0.2:
+                steps.append({"id": sid + 1, "c": bc, "op": "reparse", "a": sid})
+                mine.append(sid + 1)
     if cfg["p_echo"] and len(scripts) > 1:
-        steps = _insert_echoes(rng, cfg, steps, len(scripts))
+        steps = _insert_echoes(rng, cfg, steps, len(roles))
     if cfg["faults"]:
         for st in steps:
             if st["op"] in ("parse", "and", "or", "reparse", "echo"):
